@@ -126,6 +126,10 @@ var hexRe = regexp.MustCompile(`0x[0-9a-fA-F]+`)
 
 // msgClass normalises a panic / error message: numbers become N.
 func msgClass(s string) string {
+	// "<class> || <details>": only the class part names the kind of failure
+	if i := strings.Index(s, " || "); i >= 0 {
+		s = s[:i]
+	}
 	s = hexRe.ReplaceAllString(s, "N")
 	s = numRe.ReplaceAllString(s, "N")
 	if len(s) > 100 {
